@@ -49,7 +49,7 @@ def replay_kernel_entry(core, e, chk):
 def replay_mineral_entry(pd, e, chk):
     r, p, f, asm, cb = e["r"], e["p"], e["f"], e["asm"], e["cb"]
     m = pd.Mineral(phase=p, fabric=f, regime=r, n_grains=3, seed=5)
-    par = dict(M=125, chi=3, asm=asm, phiOl=7)
+    par = dict(M=125, chi=3, asm=asm, phiOl=7, x=[5, 0])
     params = layerb.make_params(par)
     L = layerb.FLOWS["ss_xz"]
     o0, f0 = [layerb.sha(x) for x in m.orientations], [layerb.sha(x) for x in m.fractions]
